@@ -2,37 +2,7 @@
 // Also hosts: C18 JIT side of the IMUL_RCP no-op rule, C07 dynamic JIT equality on branchy programs,
 // C06 (same harness built with ASan + guard pages, see c06 stage).
 #define RXENV_DEFINE_WRAPPERS
-#include "harness/rxenv.hpp"
-#include "gen/progs.hpp"
-
-static rxe::Env env;
-
-static std::string regDiff(const randomx::RegisterFile& a, const randomx::RegisterFile& b) {
-	std::string s;
-	for (int i = 0; i < 8; ++i) if (a.r[i] != b.r[i]) s += " r" + std::to_string(i) + ": interp=" + vh::u64s(a.r[i]) + " jit=" + vh::u64s(b.r[i]);
-	auto fp = [&](const char* n, const randomx::fpu_reg_t* x, const randomx::fpu_reg_t* y) {
-		for (int i = 0; i < 4; ++i) if (memcmp(&x[i], &y[i], 16)) s += std::string(" ") + n + std::to_string(i) + ": interp=" + vh::hex(&x[i], 16) + " jit=" + vh::hex(&y[i], 16);
-	};
-	fp("f", a.f, b.f); fp("e", a.e, b.e); fp("a", a.a, b.a);
-	return s;
-}
-
-static std::string compareEngines(const pg::ProgCase& c) {
-	int base = (c.hardAes ? RANDOMX_FLAG_HARD_AES : 0) | (c.fast ? RANDOMX_FLAG_FULL_MEM : 0) | (c.v2 ? RANDOMX_FLAG_V2 : 0);
-	randomx_vm* vi = env.vm(base);
-	randomx_vm* vj = env.vm(base | RANDOMX_FLAG_JIT | (c.secure ? RANDOMX_FLAG_SECURE : 0));
-	auto a = rxe::runInjected(vi, c.prog.data(), c.spadClass, c.spadSeed, c.fprc);
-	auto b = rxe::runInjected(vj, c.prog.data(), c.spadClass, c.spadSeed, c.fprc);
-	if (memcmp(&a.reg, &b.reg, sizeof a.reg) != 0) return "register file differs after the program:" + regDiff(a.reg, b.reg);
-	const uint8_t* sa = (const uint8_t*)vi->getScratchpad(); const uint8_t* sb = (const uint8_t*)vj->getScratchpad();
-	if (memcmp(sa, sb, RANDOMX_SCRATCHPAD_L3) != 0) {
-		size_t i = 0; while (sa[i] == sb[i]) ++i;
-		return "scratchpad differs at offset " + std::to_string(i & ~7ull) + ": interp=" + vh::hex(sa + (i & ~7ull), 8) + " jit=" + vh::hex(sb + (i & ~7ull), 8);
-	}
-	if ((a.mxcsr & rxe::MXCSR_CTRL_MASK) != (b.mxcsr & rxe::MXCSR_CTRL_MASK))
-		return "MXCSR control bits differ after the program: interp=" + vh::u64s(a.mxcsr) + " jit=" + vh::u64s(b.mxcsr);
-	return "";
-}
+#include "harness/progrun.hpp"
 
 static std::string body(const pg::ProgCase& c) {
 	std::string why = compareEngines(c);
